@@ -36,6 +36,7 @@ type c48Case struct {
 	Size    int    `json:"size"`    // fmt: source size in bytes; render: number of shapes
 	Old     int    `json:"old"`     // render: size of the existing output file
 	Variant int    `json:"variant"` // content variation
+	Link    bool   `json:"link,omitempty"` // the target path is a symbolic link to a regular file next to it (killat tracer only)
 }
 
 // c48Source builds an unformatted D2 source of exactly size bytes (size >= 1).
@@ -180,7 +181,16 @@ func (e *c48Env) reset(w int) error {
 	if err := mkdirAll(filepath.Dir(e.target(w))); err != nil {
 		return err
 	}
-	if err := writeFile(e.target(w), e.old); err != nil {
+	if e.c.Link {
+		// the existing output is a symbolic link to a regular file in the same directory
+		real := filepath.Join(filepath.Dir(e.target(w)), "real-"+filepath.Base(e.target(w)))
+		if err := writeFile(real, e.old); err != nil {
+			return err
+		}
+		if err := os.Symlink(filepath.Base(real), e.target(w)); err != nil {
+			return err
+		}
+	} else if err := writeFile(e.target(w), e.old); err != nil {
 		return err
 	}
 	if e.c.Cmd == "render" {
@@ -297,6 +307,12 @@ func checkC48(h *hx.H, c c48Case) {
 	}
 	if c.Cmd == "render" && c.Size > 400 {
 		h.Reject("bad-case")
+	}
+	if c.Link && (c.Tracer != "killat" || c.Cmd != "render") {
+		h.Reject("bad-case") // the per-path numbering of the strace tracer does not see the link's target
+	}
+	if c.Link {
+		h.Label("target-is-symlink")
 	}
 	sb, err := newSandbox()
 	if err != nil {
@@ -458,6 +474,9 @@ func coreC48() []c48Case {
 	for i, r := range renders {
 		out = append(out, c48Case{Cmd: "render", Tracer: "strace", Size: r.shapes, Old: r.old, Variant: i})
 		out = append(out, c48Case{Cmd: "render", Tracer: "killat", Size: r.shapes, Old: r.old, Variant: i})
+		if i%2 == 0 {
+			out = append(out, c48Case{Cmd: "render", Tracer: "killat", Size: r.shapes, Old: r.old + 7, Variant: i, Link: true})
+		}
 	}
 	return out
 }
@@ -476,6 +495,9 @@ func genC48(t *rapid.T) c48Case {
 	} else {
 		c.Size = rapid.IntRange(1, hx.Pick(30, 120)).Draw(t, "shapes")
 		c.Old = rapid.SampledFrom([]int{0, 1, 100, 5000, 70000, 1 << 20}).Draw(t, "old")
+		if c.Tracer == "killat" && rapid.IntRange(0, 2).Draw(t, "link") == 0 {
+			c.Link = true
+		}
 	}
 	return c
 }
